@@ -331,7 +331,8 @@ def xdev_case(draw):
                                          'lookalike'])),
         'allow_xdev': draw(st.booleans()),
         'api': draw(st.sampled_from(['lib', 'lib', 'cli'])),
-        'nfiles': draw(st.integers(1, 3)),
+        # (0: the foreign directory is empty)
+        'nfiles': draw(st.sampled_from([0, 1, 1, 2, 3])),
         # CLI: an ordinary second path given before the crossing one
         'two_paths': draw(st.booleans()),
         # update: a valid Manifest that nothing references yet sits in an
@@ -495,7 +496,7 @@ def run_xdev(desc):
             if v is not None and v != 'continue':
                 return v
         # single path
-        if desc['listed'] and not ignored:
+        if desc['listed'] and not ignored and foreign:
             oc = gem.call(lambda: gem.loader(root, **lk)
                           .assert_path_verifies(foreign[0]))
             v = check('assert_path_verifies', oc, allow_mismatch=False)
